@@ -27,7 +27,6 @@ SITES = [
     ("gapic.schema.wrappers.Field.name",
      "_N_ + '_' if _N_ in utils.RESERVED_NAMES and self.meta.address.is_proto_plus_type else _N_",
      "Field.name (proto-plus types only: raw pb2 messages keep their attribute names)"),
-    ("gapic.schema.wrappers.FieldHeader.disambiguated", "self.raw + '_' if self.raw in utils.RESERVED_NAMES else self.raw", "FieldHeader.disambiguated"),
     ("gapic.schema.wrappers.MessageType.get_field", "_F_ + ('_' if _F_ in utils.RESERVED_NAMES else '')", "MessageType.get_field lookup key"),
     ("gapic.utils.uri_conv.convert_uri_fieldnames", "_S_ + '_' if _S_ in RESERVED_NAMES else _S_", "uri path variable segments"),
 ]
@@ -57,6 +56,14 @@ def check_predicate(report):
         node, b = find_match(pattern, fi.node)
         r1.instance(what)
         r1.check(node is not None, fi.module.path, fi.node.lineno, what, f"{what}: expected the shape `{pattern}` (exactly one trailing underscore, same predicate)")
+    from .common_rules import per_segment_disambiguation
+    for qual, attr, what in (("gapic.schema.wrappers.FieldHeader.disambiguated", "raw", "implicit routing header / http path variable read (may be dotted)"),
+                             ("gapic.schema.wrappers.RoutingParameter.disambiguated_field", "field", "explicit routing field read (may be dotted)")):
+        ok, shown, dfi = per_segment_disambiguation(qual, attr)
+        r1.instance(what)
+        r1.check(ok, dfi.module.path, dfi.node.lineno, f"{qual.rsplit('.', 2)[-2]}.{qual.rsplit('.', 1)[-1]}: {shown[:120]}",
+                 f"{what}: every reserved SEGMENT of the dotted path gets one trailing underscore (`book.class` -> `book.class_`); testing the whole "
+                 f"string emits `request.book.class` (syntax error) or reads a non-existent attribute (`request.book.type`)")
     # _fields_mapping: suffix decided by the resolved leaf field's proto name
     fm = m.func("gapic.schema.wrappers.Method._fields_mapping")
     aug = [n for n in ast.walk(fm.node) if isinstance(n, ast.AugAssign) and pmatch("'_' if _F_.field_pb.name in utils.RESERVED_NAMES else ''", n.value) is not None]
